@@ -362,6 +362,27 @@ def check(fx, rep, tier):
             n_state += 1
         else:
             n_data += 1
+    # the trailing branch must be taken exactly when a push is still pending: its condition tests the captured
+    # push state (size / counter) against zero, not the (possibly empty) data buffer
+    state_like = set(state_values)
+    for m, pp in F.walk(v):
+        if m.get("k") == "Assign" and F.local_of(m["r"]) in state_values and F.local_of(m["l"]) is not None:
+            state_like.add(F.local_of(m["l"]))
+    for t, e in trailing:
+        cond_ok = False
+        conds = []
+        for anc, key in dm.parents_of.get(id(e), ()):
+            if anc.get("k") == "If" and key == "then":
+                conds.append(anc["cond"])
+        for c in conds:
+            tc = T.term(c, T.Env(), mutated)
+            if tc[0] == "bin" and tc[1] in ("Ne", "Gt"):
+                l, r = tc[2], tc[3]
+                if l[0] == "local" and l[1] in state_like and r == ("lit", "0") and len(conds) == 1:
+                    cond_ok = True
+        in_loop = any(anc.get("k") == "Loop" and "ForLoop" in anc.get("source", "") and id(anc) != id(None) for anc, key in dm.parents_of.get(id(e), ()) if any(id(x) == id(dm.match) for x, _ in F.walk(anc)))
+        if not in_loop:
+            rep.oblige(cond_ok, "R10.2", "trailing-push-condition", F.loc(e["span"]), "the handling of a cut-off trailing push is not conditional on exactly 'a push is still pending' (captured push size/counter != 0): a push cut off by all of its bytes, or some other state, is mishandled")
     rep.oblige(n_state == 1 and n_data == 1, "R10.2", "trailing-push", where_fn, f"a cut-off trailing push must yield one INVALID entry for the push byte and one per consumed data byte (found {n_state} and {n_data} constructor sites)")
 
     # ---------------------------------------------------------------- R10.3 ----------------
